@@ -87,22 +87,22 @@ impl<'de> Deserialize<'de> for Address {
                             if user.is_some() {
                                 return Err(DeError::duplicate_field("user"));
                             }
-                            let val = map.next_value()?;
-                            Address::check_user(val).map_err(DeError::custom)?;
+                            let val: String = map.next_value()?;
+                            Address::check_user(&val).map_err(DeError::custom)?;
                             user = Some(val);
                         }
                         Field::Domain => {
                             if domain.is_some() {
                                 return Err(DeError::duplicate_field("domain"));
                             }
-                            let val = map.next_value()?;
-                            Address::check_domain(val).map_err(DeError::custom)?;
+                            let val: String = map.next_value()?;
+                            Address::check_domain(&val).map_err(DeError::custom)?;
                             domain = Some(val);
                         }
                     }
                 }
-                let user: &str = user.ok_or_else(|| DeError::missing_field("user"))?;
-                let domain: &str = domain.ok_or_else(|| DeError::missing_field("domain"))?;
+                let user: String = user.ok_or_else(|| DeError::missing_field("user"))?;
+                let domain: String = domain.ok_or_else(|| DeError::missing_field("domain"))?;
                 Ok(Address::new(user, domain).unwrap())
             }
         }
